@@ -81,7 +81,7 @@ def main() -> int:
         ok = ok and hit
         shutil.rmtree(d, ignore_errors=True)
     # ---- the other self-contained models: must hold as configured
-    for mod in ("MC_Pool", "Deps", "Faults", "Variants", "Gen_Sites", "LinePipe", "XmlDocs", "MC_ExprRewrite"):
+    for mod in ("MC_Pool", "Deps", "Faults", "Variants", "Gen_Sites", "LinePipe", "XmlDocs", "MC_ExprRewrite", "WithScope", "SqlParam"):
         r = tlc.run_tlc(spec, mod, f"{mod}.cfg", timeout=900)
         print(f"tlc  {'ok  ' if not r.violated else 'FAIL'} {mod}: {r.distinct} states, {r.wall_s:.1f}s {[v[1] for v in r.violated][:2]}")
         ok = ok and not r.violated
@@ -96,6 +96,22 @@ def main() -> int:
         print(f"  pinned rules combine={vc} invert={vi}: {'refuted' if hit else 'NOT REFUTED'}")
         ok = ok and hit
         shutil.rmtree(d, ignore_errors=True)
+    # ---- non-vacuity of SqlParam.tla: weakened piece-level rules must be refuted
+    base = (spec / "SqlParam.cfg").read_text()
+    base = base.replace("MaxConds = 2", "MaxConds = 3").replace("MaxItems = 3", "MaxItems = 2")  # three conditions, shorter values
+    for variant, inv in (("tree", None), ("no-parity", "C08_PatternsAreCompleteQuotedValues"), ("no-pushback", "LemmaComplete")):
+        d = scratch("sqlbug")
+        shutil.copy(spec / "SqlParam.tla", d / "SqlParam.tla")
+        (d / "SqlParam.cfg").write_text(base.replace('RuleVariant = "tree"', f'RuleVariant = "{variant}"'))
+        r = tlc.run_tlc(d, "SqlParam", "SqlParam.cfg", timeout=900, cont=True)
+        if inv is None:
+            print(f"tlc  {'ok  ' if not r.violated else 'FAIL'} SqlParam with 3 conditions: {r.distinct} states, {r.wall_s:.1f}s")
+            ok = ok and not r.violated
+        else:
+            hit = any(v[1] == inv for v in r.violated)
+            print(f"  SqlParam rule variant {variant}: {inv} {'refuted' if hit else 'NOT REFUTED'}")
+            ok = ok and hit
+        shutil.rmtree(d, ignore_errors=True)
     # ---- the trace specification rejects a corrupted trace (binding bites)
     from . import tracecheck
 
@@ -108,7 +124,7 @@ def main() -> int:
          "sites": [], "clines": [], "unfixedAll": True, "findingsOk": True, "unfixedOk": True, "parsesOk": True, "namesOk": True, "bagOk": True},
         {"ev": "Merge", "changed": ["f0"], "failed": []}, {"ev": "CodemodEnd", "c": "k", "err": "none"},
         {"ev": "Deps", "c": "k", "store": "none", "new": 0, "post": 0, "othersUntouched": True, "err": "none", "shapeOk": True, "wanted": False, "parsesOk": True, "keptOk": True, "addedOk": True},
-        {"ev": "ReportBuilt", "results": [{"c": "k", "changed": ["f0"], "failed": []}], "schemaOk": True, "shapeOk": True},
+        {"ev": "ReportBuilt", "results": [{"c": "k", "changed": ["f0"], "failed": []}], "schemaOk": True, "shapeOk": True, "metaOk": True},
         {"ev": "ReportWritten", "rc": 0, "exists": True},
         {"ev": "RunEnd", "exit": 0, "exc": "none", "disk": {"f0": 1}, "outsideUnchanged": True, "reportExists": True}]}
     import copy
@@ -116,8 +132,9 @@ def main() -> int:
     bad1 = copy.deepcopy(good); bad1["id"] = "selftest-disk"; bad1["events"][4]["post"] = 0          # diff reported, disk not changed
     bad2 = copy.deepcopy(good); bad2["id"] = "selftest-dropped"; del bad2["events"][5]               # Merge event removed
     bad3 = copy.deepcopy(good); bad3["id"] = "selftest-exit"; bad3["events"][-1]["exit"] = 1           # wrong exit status
-    verdicts, _ = tracecheck.validate([good, bad1, bad2, bad3])
-    want = {"selftest-good": False, "selftest-disk": True, "selftest-dropped": True, "selftest-exit": True}
+    bad4 = copy.deepcopy(good); bad4["id"] = "selftest-meta"; bad4["events"][8]["metaOk"] = False      # report describes another invocation
+    verdicts, _ = tracecheck.validate([good, bad1, bad2, bad3, bad4])
+    want = {"selftest-good": False, "selftest-disk": True, "selftest-dropped": True, "selftest-exit": True, "selftest-meta": True}
     for k, rejected in want.items():
         got = bool(verdicts[k])
         print(f"  trace {k}: {'rejected ' + str(sorted(verdicts[k])[:2]) if got else 'accepted'}")
